@@ -178,3 +178,43 @@ Print Assumptions C19_passive_ro.
 Print Assumptions C19_query_ro.
 Print Assumptions C19_closed_silent.
 Print Assumptions C19_histories.
+
+
+(* ================= C19, outbound queries: every send (first or resend) re-checks closed flag and blocklist =================
+   (Query.v, QueryProofs.v; tied to /repo by the `query` engine: Server.SetIPBlockList covering the destination
+   between two sends of a NumTries 2..4 query) *)
+From Dht Require Query QueryProofs.
+
+Section C19_query.
+  Import Query QueryProofs.
+
+  (* a datagram leaves only if at that very send the server is open and the destination is not blocked *)
+  Theorem C19_query_send_rechecks c s :
+    (enabled c s ESendOk = true -> q_closed s = false /\ q_blocked s = false) /\
+    (enabled c s (ESendErr CShort) = true -> q_closed s = false /\ q_blocked s = false).
+  Proof. exact (conj (send_rechecks c s) (send_rechecks_short c s)). Qed.
+
+  (* a send attempted while the destination is blocked fails with the blocklist error *)
+  Theorem C19_query_blocked_send_error c s x :
+    q_closed s = false -> q_blocked s = true -> enabled c s (ESendErr x) = true -> x = CBlocked.
+  Proof. exact (blocked_send_error c s x). Qed.
+
+  (* once the destination is on the blocklist -- before the query or between two of its sends -- no further
+     datagram goes to it, on any schedule *)
+  Theorem C19_query_blocked_no_write c ls s :
+    q_blocked s = true -> q_blocked (exec c s ls) = true /\ q_writes (exec c s ls) = q_writes s.
+  Proof. exact (blocked_no_write c ls s). Qed.
+End C19_query.
+
+(* non-vacuity: NumTries 3, blocklist installed after the first send: one datagram, the resend is refused *)
+Example C19_query_nonvacuous :
+  let c := Query.mkQC 3 false Query.rl_zero false in
+  let s := Query.run c false 0 [Query.LRegister; Query.ESendOk; Query.EBlockDest; Query.EDelayElapsed; Query.ESendErr Query.CBlocked;
+                                Query.LSelSendErr; Query.LCancelSend; Query.LJoin; Query.LDeregister] in
+  (Query.q_writes s, Query.q_result s, Query.all_done s) = (1, Some (Query.RSendErr Query.CBlocked), true) /\
+  Query.enabled c (Query.run c false 0 [Query.LRegister; Query.ESendOk; Query.EBlockDest; Query.EDelayElapsed]) Query.ESendOk = false.
+Proof. vm_compute. split; reflexivity. Qed.
+
+Print Assumptions C19_query_send_rechecks.
+Print Assumptions C19_query_blocked_send_error.
+Print Assumptions C19_query_blocked_no_write.
